@@ -332,12 +332,303 @@ def _thread_none_exits(stmts: list[ast.stmt]) -> list[ast.stmt]:
     return out
 
 
+def _positionalise(fn: ast.AST, repo: Repo) -> None:
+    """Keyword arguments of the vocabulary calls (graph accessors, hierarchy test, public search functions) become positional, so
+    that `graph.direct_successor_nodes(node=n)` and `get_all_submodules_of(graph=g, module=m)` read like the positional form."""
+    sigs: dict[str, list[str]] = {}
+    for ci in repo.classes.values():
+        if ci.name == "AbstractGraph":
+            for name in (SUCC, PRED, HIER):
+                m = ci.methods.get(name)
+                if m is not None:
+                    sigs[name] = m.param_names[1:]
+    mod = repo.modules.get(SEARCHES)
+    pub = {n: f.param_names for n, f in mod.functions.items() if not n.startswith("_")} if mod is not None else {}
+    for c in ast.walk(fn):
+        if not (isinstance(c, ast.Call) and c.keywords and all(k.arg for k in c.keywords) and not any(isinstance(a, ast.Starred) for a in c.args)):
+            continue
+        names = sigs.get(c.func.attr) if isinstance(c.func, ast.Attribute) else pub.get(c.func.id) if isinstance(c.func, ast.Name) else None
+        if not names:
+            continue
+        given = {k.arg: k.value for k in c.keywords}
+        rest = names[len(c.args):]
+        if set(given) != set(rest[: len(given)]):
+            continue
+        c.args = list(c.args) + [given[n] for n in rest[: len(given)]]
+        c.keywords = []
+
+
+def _helper_of(repo: Repo, view: FuncInfo, call: ast.Call) -> FuncInfo | None:
+    """The module-level helper a call invokes, if the view may look into it."""
+    if not isinstance(call.func, ast.Name):
+        return None
+    try:
+        cs, how = types_of(repo).callees(view, call, byname_fallback=False)
+    except Exception:  # noqa: BLE001
+        return None
+    cs = [c for c in cs if not c.is_abstract]
+    if len(cs) != 1 or how != "repo" or isinstance(cs[0].node, ast.Lambda) or not _allow(view, cs[0]):
+        return None
+    a = cs[0].node.args
+    if a.vararg or a.kwarg:
+        return None
+    return cs[0]
+
+
+def _is_generator(f: FuncInfo) -> bool:
+    return any(isinstance(n, (ast.Yield, ast.YieldFrom)) for n in own_nodes(f.node))
+
+
+def _header_exprs(st: ast.stmt) -> list[tuple[str, ast.AST]]:
+    if isinstance(st, (ast.Expr, ast.Return)) and st.value is not None:
+        return [("value", st.value)]
+    if isinstance(st, (ast.Assign, ast.AugAssign)):
+        return [("value", st.value)]
+    if isinstance(st, ast.AnnAssign) and st.value is not None:
+        return [("value", st.value)]
+    if isinstance(st, (ast.For, ast.AsyncFor)):
+        return [("iter", st.iter)]
+    return []
+
+
+def _hoist_helper_calls(repo: Repo, view: FuncInfo) -> bool:
+    """`x.extend(helper(a))` / `for v in helper(a):` / `return list(helper(a))` -> `t = helper(a)` in front of the statement, so that
+    the statement-level inliner can substitute the helper's body (it only handles calls that are a whole statement value)."""
+    changed = False
+    taken = {n.id for n in ast.walk(view.node) if isinstance(n, ast.Name)}
+    counter = [0]
+
+    def fresh() -> str:
+        while True:
+            counter[0] += 1
+            name = f"hoisted{counter[0]}"
+            if name not in taken:
+                taken.add(name)
+                return name
+
+    def candidate(st: ast.stmt):
+        for fld, root in _header_exprs(st):
+            todo = [(root, None, None)]
+            while todo:
+                n, par, where_ = todo.pop(0)
+                if isinstance(n, (ast.Lambda, *_COMPS, ast.DictComp, ast.IfExp, ast.BoolOp)):
+                    continue
+                if isinstance(n, ast.Call) and n is not root or (isinstance(n, ast.Call) and fld == "iter"):
+                    f = _helper_of(repo, view, n)
+                    if f is not None and not _is_generator(f):
+                        return fld, n, par, where_
+                for name, val in ast.iter_fields(n):
+                    if isinstance(val, ast.AST):
+                        todo.append((val, n, (name, None)))
+                    elif isinstance(val, list):
+                        for i, x in enumerate(val):
+                            if isinstance(x, ast.AST):
+                                todo.append((x, n, (name, i)))
+        return None
+
+    def block(stmts: list[ast.stmt]) -> list[ast.stmt]:
+        nonlocal changed
+        out: list[ast.stmt] = []
+        for st in stmts:
+            for fld in ("body", "orelse", "finalbody"):
+                blk = getattr(st, fld, None)
+                if isinstance(blk, list) and blk and isinstance(blk[0], ast.stmt):
+                    setattr(st, fld, block(blk))
+            if isinstance(st, ast.Try):
+                for h in st.handlers:
+                    h.body = block(h.body)
+            for _ in range(8):
+                got = candidate(st)
+                if got is None:
+                    break
+                fld, call, par, where_ = got
+                tmp = fresh()
+                assign = ast.copy_location(ast.Assign(targets=[ast.Name(id=tmp, ctx=ast.Store())], value=call), st)
+                ref = ast.copy_location(ast.Name(id=tmp, ctx=ast.Load()), call)
+                if par is None:
+                    setattr(st, fld, ref)
+                elif where_[1] is None:
+                    setattr(par, where_[0], ref)
+                else:
+                    getattr(par, where_[0])[where_[1]] = ref
+                out.append(assign)
+                changed = True
+            out.append(st)
+        return out
+
+    view.node.body = block(view.node.body)
+    return changed
+
+
+def _inline_generator_loops(repo: Repo, view: FuncInfo) -> bool:
+    """`for v in gen(args): BODY` where `gen` is a small generator helper whose `yield e` statements end their loop iteration:
+    the helper's loops with `v = e; BODY` in place of each yield."""
+    changed = False
+    taken = {n.id for n in ast.walk(view.node) if isinstance(n, ast.Name)}
+
+    def tail_yields(f: FuncInfo) -> bool:
+        ok = True
+
+        def blockv(stmts: list[ast.stmt], tail: bool) -> None:
+            nonlocal ok
+            for i, st in enumerate(stmts):
+                last = tail and i == len(stmts) - 1
+                if isinstance(st, ast.Expr) and isinstance(st.value, ast.Yield):
+                    if not last or st.value.value is None:
+                        ok = False
+                elif isinstance(st, ast.If):
+                    blockv(st.body, last)
+                    blockv(st.orelse, last)
+                elif isinstance(st, (ast.For, ast.While)):
+                    blockv(st.body, True)
+                    if st.orelse:
+                        ok = False
+                elif any(isinstance(n, (ast.Yield, ast.YieldFrom)) for n in ast.walk(st)):
+                    ok = False
+                if isinstance(st, ast.Return) and st.value is not None:
+                    ok = False
+
+        # yields outside any loop of the helper are only in tail position of the helper itself
+        blockv([s_ for s_ in f.node.body], True)
+        return ok and not any(isinstance(n, (ast.FunctionDef, ast.AsyncFunctionDef, ast.ClassDef, ast.Global, ast.Nonlocal, ast.Try, ast.With)) for n in own_nodes(f.node))
+
+    def expand(st: ast.For, f: FuncInfo) -> list[ast.stmt] | None:
+        call = st.iter
+        if st.orelse or call.keywords and any(k.arg is None for k in call.keywords) or any(isinstance(a, ast.Starred) for a in call.args):
+            return None
+        # break / continue of the loop itself cannot be expressed once the loop is the helper's
+        def escapes(stmts: list[ast.stmt]) -> bool:
+            for x in stmts:
+                if isinstance(x, ast.Break):
+                    return True
+                if isinstance(x, (ast.For, ast.While, ast.FunctionDef, ast.AsyncFunctionDef)):
+                    continue
+                for fld in ("body", "orelse", "finalbody"):
+                    if escapes(getattr(x, fld, []) or []):
+                        return True
+                if isinstance(x, ast.Try) and any(escapes(h.body) for h in x.handlers):
+                    return True
+            return False
+
+        if escapes(st.body) or not tail_yields(f):
+            return None
+        a = f.node.args
+        pos = [p_.arg for p_ in [*a.posonlyargs, *a.args]]
+        bind: dict[str, ast.expr] = dict(zip(pos, call.args))
+        for k in call.keywords:
+            bind[k.arg] = k.value
+        for p_, d in zip(pos[len(pos) - len(a.defaults):], a.defaults):
+            bind.setdefault(p_, d)
+        if any(p_ not in bind for p_ in f.param_names):
+            return None
+        body = [_clone_src(s_, f) for s_ in f.node.body if not (isinstance(s_, ast.Expr) and isinstance(s_.value, ast.Constant))]
+        stored = {n.id for s_ in body for n in ast.walk(s_) if isinstance(n, ast.Name) and isinstance(n.ctx, ast.Store)}
+        prefix: list[ast.stmt] = []
+        ren: dict[str, str] = {}
+        for p_ in f.param_names:
+            val = bind[p_]
+            if isinstance(val, ast.Name) and p_ not in stored:
+                ren[p_] = val.id
+            else:
+                new = p_ if p_ not in taken else f"{p_}__{f.name.strip('_')}"
+                taken.add(new)
+                ren[p_] = new
+                prefix.append(ast.copy_location(ast.Assign(targets=[ast.Name(id=new, ctx=ast.Store())], value=val), st))
+        for l_ in sorted(stored - set(f.param_names)):
+            if l_ in taken:
+                new = f"{l_}__{f.name.strip('_')}"
+                taken.add(new)
+                ren[l_] = new
+            else:
+                taken.add(l_)
+        for s_ in body:
+            for n in ast.walk(s_):
+                if isinstance(n, ast.Name) and n.id in ren:
+                    n.id = ren[n.id]
+
+        def subst(stmts: list[ast.stmt]) -> list[ast.stmt]:
+            out: list[ast.stmt] = []
+            for x in stmts:
+                if isinstance(x, ast.Expr) and isinstance(x.value, ast.Yield):
+                    out.append(ast.copy_location(ast.Assign(targets=[_clone(st.target)], value=x.value.value), x))
+                    out += _clone(st.body)
+                    continue
+                if isinstance(x, ast.Return):
+                    continue  # bare return in tail position
+                for fld in ("body", "orelse"):
+                    blk = getattr(x, fld, None)
+                    if isinstance(blk, list) and blk and isinstance(blk[0], ast.stmt):
+                        setattr(x, fld, subst(blk) or [ast.copy_location(ast.Pass(), x)])
+                out.append(x)
+            return out
+
+        return prefix + subst(body)
+
+    def block(stmts: list[ast.stmt]) -> list[ast.stmt]:
+        nonlocal changed
+        out: list[ast.stmt] = []
+        for st in stmts:
+            for fld in ("body", "orelse", "finalbody"):
+                blk = getattr(st, fld, None)
+                if isinstance(blk, list) and blk and isinstance(blk[0], ast.stmt):
+                    setattr(st, fld, block(blk))
+            if isinstance(st, ast.Try):
+                for h in st.handlers:
+                    h.body = block(h.body)
+            if isinstance(st, ast.For) and isinstance(st.iter, ast.Call):
+                f = _helper_of(repo, view, st.iter)
+                if f is not None and _is_generator(f):
+                    got = expand(st, f)
+                    if got is not None:
+                        out += got
+                        changed = True
+                        view.__dict__.setdefault("gen_inlined", []).append(f.fq)
+                        continue
+            out.append(st)
+        return out
+
+    view.node.body = block(view.node.body)
+    return changed
+
+
+def _clone_src(e, ctx: FuncInfo):
+    """Copy of a helper's statement for substitution into a view: every node remembers where it came from."""
+    if isinstance(e, list):
+        return [_clone_src(x, ctx) for x in e]
+    if not isinstance(e, ast.AST):
+        return e
+    new = type(e)()
+    for f in e._fields:
+        if hasattr(e, f):
+            setattr(new, f, _clone_src(getattr(e, f), ctx))
+    for a in ("lineno", "col_offset", "end_lineno", "end_col_offset"):
+        if hasattr(e, a):
+            setattr(new, a, getattr(e, a))
+    new._src = getattr(e, "_src", (ctx, e))  # type: ignore[attr-defined]
+    return new
+
+
 def search_view(repo: Repo, fi: FuncInfo) -> FuncInfo:
     cache = repo.__dict__.setdefault("_search_views", {})
     if fi.fq in cache:
         return cache[fi.fq]
     v0 = Inliner(repo, types_of(repo), _allow).view(fi)
+    inlined = list(getattr(v0, "inlined", []))
+    for _ in range(3):
+        # helper calls the inliner could not reach (nested in an expression, generator helpers in a for header): make them
+        # reachable and substitute once more
+        changed = _hoist_helper_calls(repo, v0)
+        changed = _inline_generator_loops(repo, v0) or changed
+        inlined += v0.__dict__.get("gen_inlined", [])
+        if not changed:
+            break
+        ast.fix_missing_locations(v0.node)
+        set_parents(v0.node)
+        v1 = Inliner(repo, types_of(repo), _allow).view(v0)
+        inlined += list(getattr(v1, "inlined", []))
+        v0 = v1
     node = v0.node
+    _positionalise(node, repo)
     node.body = _thread_none_exits(node.body)
     _eliminate_aliases(node, set(fi.param_names))
     node.body = _split_conditions(node.body)
@@ -346,7 +637,7 @@ def search_view(repo: Repo, fi: FuncInfo) -> FuncInfo:
     v = ViewInfo(name=fi.name, qualname=fi.qualname, node=node, module=fi.module, cls=fi.cls, decorators=list(fi.decorators), outer=fi.outer)
     v.shown = fi.qualname  # type: ignore[attr-defined]
     v.origin = getattr(v0, "origin", {})  # type: ignore[attr-defined]
-    v.inlined = list(getattr(v0, "inlined", []))  # type: ignore[attr-defined]
+    v.inlined = inlined  # type: ignore[attr-defined]
     v.base = fi  # type: ignore[attr-defined]
     node._func = v  # type: ignore[attr-defined]
     cache[fi.fq] = v
@@ -1019,20 +1310,33 @@ def build(repo: Repo, fi: FuncInfo) -> SearchModel | None:
             text = " and ".join(("" if pol else "not ") + norm(e) for e, pol in cs_) or "True"
             raw.append((s, elt, comp, inner_it, g, text))
 
-    # ---- two-phase results: candidates collected inside the neighbour iteration into a local list, recorded by a later pass
-    #      over that list (`for a, b in candidates if ..`): the record happens under both guards
+    # ---- two-phase events: candidates collected inside the neighbour iteration into a local list and pushed / recorded by a
+    #      later pass over that list (`W.extend(candidates)`, `for a, b in candidates if ..: R.append(..)`, `return [.. for a, b in
+    #      candidates if ..]`): the event happens under both guards
     chained: list[tuple] = []
+    consumed: set[int] = set()
     collectors: dict[str, list] = {}
+    sinks = {worklist, "<return>"} | rets
     for s, elt, comp, it_, g, text in raw:
-        if it_ is not None and s.receiver.isidentifier() and s.receiver != worklist and s.receiver not in v.param_names and s.method in ("append", "add", "extend", "update", "+="):
+        if it_ is not None and s.receiver.isidentifier() and s.receiver not in sinks and s.receiver not in v.param_names and s.method in ("append", "add", "extend", "update", "+="):
             names = [x.id for x in elt.elts] if isinstance(elt, (ast.Tuple, ast.List)) and all(isinstance(x, ast.Name) for x in elt.elts) else [elt.id] if isinstance(elt, ast.Name) else None
             if names:
-                collectors.setdefault(s.receiver, []).append((names, it_, all_conds(v, elt) + it_.extra))
+                collectors.setdefault(s.receiver, []).append((names, it_, all_conds(v, elt) + it_.extra, elt))
     for s in sites:
-        if not (s.receiver in rets or s.receiver == "<return>"):
+        if s.receiver not in sinks:
             continue
         for elt, comp in s.elements:
-            if in_outer(s.node) or in_outer(elt) or niter_of(elt) is not None:
+            if niter_of(elt) is not None or niter_of(s.node) is not None:
+                continue
+            b_elt = strip(elt)
+            if comp is None and isinstance(b_elt, ast.Name) and b_elt.id in collectors:
+                # the collected list is added as a whole
+                for names, it_, ccs, c_elt in collectors[b_elt.id]:
+                    cs_ = list(ccs) + all_conds(v, s.node)
+                    g = conds_formula(cs_, model.subst)
+                    text = " and ".join(("" if pol else "not ") + norm(e_) for e_, pol in cs_) or "True"
+                    chained.append((s, c_elt, None, it_, g, text))
+                    consumed.add(id(elt))
                 continue
             # the loop / generator that feeds the element
             feeder = None
@@ -1048,7 +1352,7 @@ def build(repo: Repo, fi: FuncInfo) -> SearchModel | None:
                 continue
             tgt, lname = feeder
             tnames = [x.id for x in tgt.elts] if isinstance(tgt, (ast.Tuple, ast.List)) and all(isinstance(x, ast.Name) for x in tgt.elts) else [tgt.id] if isinstance(tgt, ast.Name) else None
-            for names, it_, ccs in collectors[lname]:
+            for names, it_, ccs, c_elt in collectors[lname]:
                 if tnames is None or len(tnames) != len(names):
                     continue
                 late = [(e_, pol) for e_, pol in all_conds(v, elt)]
@@ -1063,7 +1367,8 @@ def build(repo: Repo, fi: FuncInfo) -> SearchModel | None:
                 g = conds_formula(cs_, model.subst)
                 text = " and ".join(("" if pol else "not ") + norm(e_) for e_, pol in cs_) or "True"
                 chained.append((s, ren_elt, comp, it_, g, text))
-    raw += chained
+                consumed.add(id(elt))
+    raw = [r for r in raw if id(r[1]) not in consumed] + chained
 
     # visited sets: a set to which the current node / neighbour is added only if it is not in it yet
     nvars = {i.var for i in iters}
@@ -1267,7 +1572,25 @@ def record_pair(model: SearchModel, ev: Event) -> tuple[str, str] | None:
         return None
     nv = ev.nvar or model.neighbour_var
     want = {model.popped, nv}
-    todo = [e]
+    single = _single_assignments(model.fi.node)
+
+    def expand(x: ast.AST, depth: int = 0) -> ast.AST:
+        """locals bound once (`pair = (..)`, temporaries of substituted helpers) are replaced by their value"""
+        if depth > 4:
+            return x
+
+        class Tr(ast.NodeTransformer):
+            def visit_Name(self, n: ast.Name):  # noqa: N802
+                if isinstance(n.ctx, ast.Load) and n.id in single and n.id not in want and n.id not in model.fi.param_names:
+                    return expand(_clone(single[n.id]), depth + 1)
+                return n
+
+            def visit_Lambda(self, n):  # noqa: N802
+                return n
+
+        return Tr().visit(_clone(x))
+
+    todo = [expand(e)]
     while todo:
         n = todo.pop(0)
         if isinstance(n, ast.Call) and isinstance(n.func, ast.Name) and not n.keywords and len(n.args) >= 2:
